@@ -426,6 +426,32 @@ fn main() {
         let _ = std::io::stdout().flush();
       }
     }
+    Some("escapes") => {
+      // BOUNDED stand-in (not a proof): every scalar value of a sample (every <step>-th code point, the first and last of every
+      // plane, the surrogate boundaries' neighbours) written as \uXXXX (BMP), \UXXXXXX and - above the BMP - as a UTF-16 surrogate
+      // pair inside a string literal must parse to the one-character string; step 1 = every code point.
+      let step: u32 = args.get(2).and_then(|s| s.parse().ok()).unwrap_or(257);
+      let scope = Scope::default();
+      let mut cps: Vec<u32> = (0x20u32..0x110000).step_by(step as usize).collect();
+      for p in 0u32..17 { cps.push(p * 0x10000); cps.push(p * 0x10000 + 0xFFFF); cps.push(p * 0x10000 + 0x8000); }
+      cps.extend([0xD7FF, 0xE000, 0x7F, 0x80, 0x7FF, 0x800, 0xFFFD, 0x10000, 0x10FFFF, 0x20000, 0x2FFFF, 0x1F4C0]);
+      let mut cases = 0usize; let mut nfail = 0usize; let mut failures: Vec<String> = vec![];
+      for cp in cps {
+        let ch = match char::from_u32(cp) { Some(c) => c, None => continue };
+        if ch == '"' || ch == '\\' { continue; }
+        let mut spellings: Vec<String> = vec![format!("\"\\U{:06X}\"", cp)];
+        if cp < 0x10000 { spellings.push(format!("\"\\u{:04X}\"", cp)); } else { let v = cp - 0x10000; spellings.push(format!("\"\\u{:04X}\\u{:04X}\"", 0xD800 + (v >> 10), 0xDC00 + (v & 0x3FF))); }
+        for s in spellings {
+          cases += 1;
+          let s2 = s.clone();
+          let r = std::panic::catch_unwind(std::panic::AssertUnwindSafe(|| dmntk_feel_parser::parse_expression(&scope, &s2, false)));
+          let ok = match &r { Ok(Ok(dmntk_feel::AstNode::String(t))) => t.chars().count() == 1 && t.chars().next() == Some(ch), _ => false };
+          if !ok { nfail += 1; if failures.len() < 5 { failures.push(format!("{} (U+{:04X}) => {}", s, cp, match r { Ok(Ok(n)) => format!("{:?}", n).chars().take(80).collect::<String>(), Ok(Err(e)) => format!("error {}", e).chars().take(80).collect::<String>(), Err(_) => "PANIC".to_string() })); } }
+        }
+      }
+      println!("escapes cases={} failures={}", cases, nfail);
+      for f in failures { println!("FAIL {}", f); }
+    }
     Some("scopes") => {
       // BOUNDED stand-in (not a proof): every stack of up to <max> contexts in which each context either binds `x` (to its
       // level) and/or `y z` or not: Scope::get_entry and Scope::search_deep must return the innermost binding, and
